@@ -167,7 +167,7 @@ class Sched:
         self.parked = [False] * nthreads
         self.started = [False] * nthreads     # hooks / yield points are inert before (loop thread prologue)
         self.pending = [None] * nthreads      # sync mode: the access the thread is about to make
-        self.waiting = [False] * nthreads     # the thread wants the lock
+        self.waiting = [None] * nthreads      # the LockProxy the thread wants (None: not waiting)
         self.call = [0] * nthreads
         self.steps = []                       # (tid, kind) in execution order
         self.active = False
@@ -258,7 +258,7 @@ class Sched:
             lock.owner = 'main'
             return
         self.check_map(tid, 'acq')
-        self.waiting[tid] = True
+        self.waiting[tid] = lock
         if self.mode == 'sync':
             self.pending[tid] = 'acq'
             self._pause(tid)                    # the controller activates a waiting thread only when the lock is free
@@ -268,7 +268,7 @@ class Sched:
             self._pause(tid)
         if lock.owner is not None:
             raise SchedError('thread %d activated on a held lock' % tid)
-        self.waiting[tid] = False
+        self.waiting[tid] = None
         lock.owner = tid
         self._log(tid, 'acq')
 
@@ -317,12 +317,12 @@ class Sched:
         self.release.wait()
 
     def _runnable(self, t):
-        return not self.done[t] and not (self.waiting[t] and self.lock.owner is not None)
+        return not self.done[t] and not (self.waiting[t] is not None and self.waiting[t].owner is not None)
 
     def _entry(self, t):
         if not (0 <= t < self.n) or self.done[t]:
             return
-        if self.waiting[t] and self.lock.owner is not None:
+        if self.waiting[t] is not None and self.waiting[t].owner is not None:
             self._log(t, 'blocked')
             return
         self._activate(t)
@@ -426,8 +426,11 @@ class SchedSocket:
         m = n - 1
         q = len(data) // n
         kfail = run.fail_at.get((tid, call))
-        run.sendalls.append(dict(tid=tid, call=call, data=data, written=0, failed=False))
-        rec = run.sendalls[-1]
+        # pre-connect cases: the HTTP request goes through the same steps but is kept apart from the frames
+        sink = run.request if (run.pre and data.startswith(b'GET ')) else run.chunks
+        rec = dict(tid=tid, call=call, data=data, written=0, failed=False)
+        if sink is run.chunks:
+            run.sendalls.append(rec)
 
         def boom(k):
             rec['failed'] = True
@@ -440,7 +443,7 @@ class SchedSocket:
             sched.step('w1', check=(j == 0))
             if kfail == j:
                 boom(j)
-            run.chunks.append((tid, call, 0, data[j * q:(j + 1) * q]))
+            sink.append((tid, call, 0, data[j * q:(j + 1) * q]))
             rec['written'] += q
             # a yield point between two chunks, in both modes
             if sched.mode == 'line':
@@ -448,7 +451,7 @@ class SchedSocket:
         sched.step('w2', check=False)
         if kfail == m:
             boom(m)
-        run.chunks.append((tid, call, 1, data[m * q:]))
+        sink.append((tid, call, 1, data[m * q:]))
         rec['written'] = len(data)
 
     def recv_into(self, buf, count):
@@ -573,12 +576,15 @@ class ParkingSelector:
             raise world.ScriptEnd()
         tid = sched.ident.get(threading.get_ident()) if sched.active else None
         if tid is not None:
-            if sched.started[tid]:
+            if run.pre and not run.pre_waited:
+                run.pre_waited = True       # `cn` covers connect, request and the read of the reply
+            elif sched.started[tid]:
                 sched.call[tid] += 1
+                run.loop_events.append([])
             else:
                 sched.started[tid] = True
                 sched.call[tid] = 0
-            run.loop_events.append([])
+                run.loop_events.append([])
         step = run.env.pop(0)
         if step[0] == 'tick':
             run.clock.t += float(step[1])
@@ -594,16 +600,18 @@ class ParkingSelector:
 # one run
 
 APP_CALLS = ('st1', 'st0', 'sb1', 'sb0', 'pi', 'po', 'cl')
-LOOP_CALLS = ('rp', 'rc', 'tk', 'rm', 'rm2')
+LOOP_CALLS = ('rp', 'rc', 'tk', 'rm', 'rm2', 'cn')
 
 
 def parse_call(tok):
     """`st1=<hex>` send_text(compress=True) | st0 | sb1 | sb0 | pi=<hex> | po=<hex> | cl=<code|N>,<hex>
        loop thread: rp=<hex> (server Ping) | rc=<code|N>,<hex> (server Close) | tk (31 s of silence: auto-ping)
                     rm=<hex> (server Text message, COMPRESSED, one frame; <hex> = its UTF-8 text; needs z != 0)
-                    rm2=<hex> (the same in two fragments: Text FIN=0 RSV1=1, Continuation FIN=1)"""
-    if tok == 'tk':
-        return ('tk',)
+                    rm2=<hex> (the same in two fragments: Text FIN=0 RSV1=1, Continuation FIN=1)
+                    cn (first call only): the case starts BEFORE the event loop is first advanced; the loop thread connects,
+                       writes the request and reads the reply under the scheduler, racing with the application threads"""
+    if tok in ('tk', 'cn'):
+        return (tok,)
     h, a = tok.split('=', 1)
     if h in ('cl', 'rc'):
         c, r = a.split(',')
@@ -638,6 +646,10 @@ class Run:
         self.fail_at = {}             # (tid, call) -> k: the sendall raises once k chunks are out
         self.sent_by_server = []      # texts (bytes) of the compressed messages the simulated server sends, in order
         self.received = []            # texts (bytes) of the Text events the loop thread yielded, in order
+        self.lock_stores = []         # source lines that stored a NEW object into session._lock after the constructor's
+        self.pre = False              # the case starts BEFORE the connection exists (loop program starts with `cn`)
+        self.request = []             # pre: the chunks of the HTTP request
+        self.pre_waited = False
 
     def nchunks(self, tid, call):
         return max(1, int(self.n_of.get((tid, call), self.n_default)))
@@ -692,7 +704,9 @@ def run_real(case):
     for tid in loop_tids:
         for tok in progs[tid]:
             c = parse_call(tok)
-            if c[0] == 'rp':
+            if c[0] == 'cn':
+                run.pre = True
+            elif c[0] == 'rp':
                 run.env.append(('recv', server_frame(9, c[1])))
             elif c[0] == 'rc':
                 run.env.append(('recv', server_frame(8, close_payload(c[1], c[2]))))
@@ -714,10 +728,18 @@ def run_real(case):
     class SchedSession(WebsocketSession):
         _selector_cls = ParkingSelector
 
-        def __init__(self, websocket):
-            WebsocketSession.__init__(self, websocket)
-            self._lock = LockProxy(sched)
-            sched.lock = self._lock
+        # `session._lock`: whatever lock object the code stores, the scheduler sees a LockProxy of its own in its place (one per
+        # store: a lock that is REPLACED is a different lock - threads inside the old one do not exclude threads inside the new one)
+        def _get_lock(self):
+            return self.__dict__['_lock_proxy']
+
+        def _set_lock(self, value):
+            if '_lock_proxy' in self.__dict__:
+                f = sys._getframe(1)
+                run.lock_stores.append('%s:%d' % (os.path.basename(f.f_code.co_filename), f.f_lineno))
+            self.__dict__['_lock_proxy'] = LockProxy(sched)
+            sched.lock = self.__dict__['_lock_proxy']
+        _lock = property(_get_lock, _set_lock)
 
         def _connect(self):
             s = SchedSocket(run)
@@ -764,18 +786,24 @@ def run_real(case):
         ws = WebSocket(sc.url, proxies={}, compress=z != 0)
         gen = ws.connect(session_class=SchedSession, poll=5.0, ping_rate=30.0, ping_timeout=None,
                          auto_pong=True, close_timeout=None)
-        names = []
-        for ev in gen:
-            names.append(ev.name)
-            if ev.name == 'poll':
-                break
-        if names != ['connecting', 'connected', 'ready', 'poll']:
-            raise SchedError('handshake did not complete: %r' % names)
-        if (z != 0) != bool(ws.state.compression):
-            raise SchedError('compression not negotiated as requested')
-        ws.state.__class__ = _traced_state_class(type(ws.state), sched)
-        if ws.state.compression:
-            ws.state.compression.__class__ = _traced_deflate_class(type(ws.state.compression), run)
+        if run.pre:
+            if z != 0:
+                raise ValueError('cn cases run without compression')
+            run.loop_events.append([])
+            ws.state.__class__ = _traced_state_class(type(ws.state), sched)
+        else:
+            names = []
+            for ev in gen:
+                names.append(ev.name)
+                if ev.name == 'poll':
+                    break
+            if names != ['connecting', 'connected', 'ready', 'poll']:
+                raise SchedError('handshake did not complete: %r' % names)
+            if (z != 0) != bool(ws.state.compression):
+                raise SchedError('compression not negotiated as requested')
+            ws.state.__class__ = _traced_state_class(type(ws.state), sched)
+            if ws.state.compression:
+                ws.state.compression.__class__ = _traced_deflate_class(type(ws.state.compression), run)
 
         def app_body(tid, calls):
             def body():
@@ -814,7 +842,7 @@ def run_real(case):
         fns, starters = [], []
         for tid, p in enumerate(progs):
             if tid in loop_tids:
-                fns.append(loop_body(tid)); starters.append(False)
+                fns.append(loop_body(tid)); starters.append(run.pre)
             else:
                 fns.append(app_body(tid, p)); starters.append(True)
         threads = sched.run(fns, starters)
@@ -826,7 +854,7 @@ def run_real(case):
             results={t: list(r) for t, r in run.results.items()},
             loop_events=[list(e) for e in run.loop_events],
             flags=dict(closing=bool(st['closing']), closed=bool(st['closed']),
-                       sock=ws.state.session.__dict__.get('_sock_value') is not None, shut=bool(run.sock.closed),
+                       sock=ws.state.session.__dict__.get('_sock_value') is not None, shut=bool(getattr(run, 'sock', None) is not None and run.sock.closed),
                        lock=sched.lock.owner),
             zcalls=[dict(tid=c['tid'], call=c['call'], kind=c['kind'], data=c.get('data', b'').hex(), out=c.get('out', b'').hex(),
                          obj=c['obj']) for c in run.zcalls],
@@ -837,6 +865,8 @@ def run_real(case):
                       for w in run.sendalls],
             server_sent=[b.hex() for b in run.sent_by_server],
             received=[b.hex() for b in run.received],
+            lock_stores=list(run.lock_stores),
+            request=[(t, c, h, b.hex()) for t, c, h, b in run.request],
         )
         for tid in loop_tids:
             out['results'][tid] = ['+'.join(e) if e else '-' for e in run.loop_events]
